@@ -61,6 +61,7 @@ def programs():
     out.append(Program([f, main]))
     out += class_scope_programs()
     out += call_site_programs()
+    out += destructor_scope_programs()
     return out
 
 
@@ -133,6 +134,27 @@ def class_scope_programs():
                                        Decl(C("Sub"), "t", New("Sub", Var("src"))), Echo(MCall(Var("t"), "inner")), Echo(MCall(Var("t"), "param", Var("src"))),
                                        Expr(MCall(Var("t"), "field")), Echo(Fld(Var("t"), "data")), Echo(Fld(Var("s"), "buf"))])
         out.append(Program([main], [store, sub]))
+    return out
+
+
+def destructor_scope_programs():
+    """every destructor of a chain (most derived first) runs in its own frame: a top-level local of a derived destructor is not
+    visible to the base destructor, which reads and writes its class's fields by bare name"""
+    out = []
+    INT = P("int")
+    for names in (("pending", "closed", "id"), ("p0", "c0", "i0")):      # colliding with the base's fields / fresh
+        a, b, c = names
+        handle = Class("Handle", "", [Field(INT, "pending", I(2)), Field(INT, "closed", I(0)), Field(INT, "id")], [],
+                       [Ctor([Param(INT, "i")], [Expr(FAsg(This(), "id", Var("i")))])],
+                       [Echo(Bin("+", S("Handle closes with "), Var("pending"))), Expr(Asg("closed", Bin("+", Var("closed"), I(1)))), Echo(Var("closed")), Echo(Var("id"))])
+        session = Class("Session", "Handle", [Field(INT, "extra", I(5))], [], [Ctor([Param(INT, "i")], [Super(Var("i"))])],
+                        [Decl(INT, a, I(18)), Decl(INT, b, I(40)), Expr(Asg(a, Bin("+", Var(a), Var("extra")))), Echo(Bin("+", S("Session flushed "), Var(a))), Echo(Var(b))])
+        deep = Class("Deep", "Session", [], [], [Ctor([Param(INT, "i")], [Super(Var("i"))])],
+                     [Decl(INT, c, I(-1)), Decl(INT, a, I(77)), Echo(Bin("+", Var(c), Var(a)))])
+        main = Func("main", [], VOID, [Block([Decl(C("Session"), "s", New("Session", I(1)))]), Echo(S("mid")),
+                                       Decl(C("Handle"), "t", New("Deep", I(2))), Destroy("t"), Echo(S("after destroy")),
+                                       Block([Decl(C("Deep"), "u", New("Deep", I(3))), Decl(C("Handle"), "v", New("Handle", I(4)))]), Echo(S("end"))])
+        out.append(Program([main], [handle, session, deep]))
     return out
 
 
